@@ -562,7 +562,7 @@ pub fn check_case<F: Fl>(prop: &str, w: &World<F>, m: &GModel, c: &GCase, dfs: &
         Ok(x) => x,
         Err(f) => return Err((class_of(&c.cfg, f.kind()), format!("{}: {}", c.program(F::NAME), f.msg()))),
     };
-    if c.mode == "diff" {
+    if c.mode == "diff" || c.mode == "diffonly" {
         // C08: the same operation without transpose() on the edge-reversed graph
         let wt = wt.expect("harness: reversed world");
         let mut cfg2 = c.cfg;
@@ -584,6 +584,9 @@ pub fn check_case<F: Fl>(prop: &str, w: &World<F>, m: &GModel, c: &GCase, dfs: &
                 return Err((class_of(&cfg2, f.kind()), format!("on the reversed graph: {}", f.msg())));
             }
         }
+    }
+    if c.mode == "diffonly" {
+        return Ok((sres, trace.len()));
     }
     match oracle(aspects(prop, &c.cfg), m, c, &sres, &trace, dfs) {
         Ok(()) => Ok((sres, trace.len())),
@@ -796,6 +799,84 @@ pub fn large_sweep<F: Fl>(job: &Job, p: &GParams, out: &mut Out) {
     }
 }
 
+/// C06: the frontier of a priority-first search is a priority queue; its
+/// behaviour depends on the *order in which values arrive* and on how many
+/// are pending, which the small shapes (<= 3 pending nodes, <= 3 values)
+/// barely exercise. Family: root 0 with k children (connected in key order),
+/// child i with one child of its own (so every node of the first level has
+/// an edge to expand and the second level arrives while the first is still
+/// pending) - and *every* assignment of the distinct values 1..2k to the 2k
+/// non-root nodes (all (2k)! arrival orders), plus every assignment of values
+/// from {1,2} (ties). min and max, complete traversal and every target.
+pub fn heap_sweep<F: Fl>(job: &Job, k: usize, out: &mut Out) {
+    let prop = job.property.as_str();
+    let n = 1 + 2 * k;
+    let mut conns: Vec<(K, K)> = (1..=k).map(|i| (0, i as K)).collect();
+    conns.extend((1..=k).map(|i| (i as K, (k + i) as K)));
+    let mut dfs = DfsOrders::default();
+    // all permutations of 1..=2k (Heap's algorithm), then the tie assignments
+    let mut assignments: Vec<Vec<i8>> = Vec::new();
+    {
+        let m = 2 * k;
+        let mut a: Vec<i8> = (1..=m as i8).collect();
+        let mut c = vec![0usize; m];
+        assignments.push(a.clone());
+        let mut i = 0;
+        while i < m {
+            if c[i] < i {
+                if i % 2 == 0 {
+                    a.swap(0, i);
+                } else {
+                    a.swap(c[i], i);
+                }
+                assignments.push(a.clone());
+                c[i] += 1;
+                i = 0;
+            } else {
+                c[i] = 0;
+                i += 1;
+            }
+        }
+        for mask in 0..(1u32 << m) {
+            assignments.push((0..m).map(|b| 1 + ((mask >> b) & 1) as i8).collect());
+        }
+    }
+    out.stats.max("heap_family_value_assignments", assignments.len() as u64);
+    for (ai, asg) in assignments.iter().enumerate() {
+        if ai % job.nshards != job.shard {
+            continue;
+        }
+        let mut vals = vec![0i8];
+        vals.extend(asg.iter().cloned());
+        crate::progress::set_case(|| json!({"kind":"gsweep-heap","flavour":F::NAME,"k":k,"vals":vals}).to_string());
+        let m = GModel::new(n, F::DIRECTED, &conns, &vals);
+        let w = build_world::<F>(&vals, &conns);
+        for kind in [Kind::PfsMin, Kind::PfsMax] {
+            let mut cfgs = vec![Cfg { kind, transpose: false, target: None, meth: Meth::ForEach, res: ResK::Search, alt: false }];
+            for t in [k, k + 1, 2 * k] {
+                cfgs.push(Cfg { kind, transpose: false, target: Some(t as K), meth: Meth::ForEach, res: ResK::Path, alt: false });
+            }
+            for cfg in cfgs {
+                crate::progress::tick();
+                let c = GCase { n, conns: conns.clone(), vals: vals.clone(), root: 0, cfg, reject: vec![], mode: String::new(), churn: churn() };
+                out.stats.inc("evaluations");
+                out.stats.inc("nontrivial");
+                if let Err((class, what)) = check_case::<F>(prop, &w, &m, &c, &mut dfs, None) {
+                    out.report(Violation {
+                        property: prop.into(),
+                        engine: "gsweep".into(),
+                        flavour: F::NAME.into(),
+                        class,
+                        what,
+                        case: json!({"kind":"gsweep","flavour":F::NAME,"case":c,"program":c.program(F::NAME)}),
+                        order: (k * 100000 + ai) as u64,
+                    });
+                }
+            }
+        }
+    }
+}
+
 /// The configurations (cfg, reject-set, mode) a property sweeps for one shape and root.
 pub fn configs(prop: &str, directed: bool, n: usize, root: K, arcs: &[Arc3], arcs_t: &[Arc3]) -> Vec<(Cfg, Vec<Arc3>, &'static str)> {
     let mut v = Vec::new();
@@ -887,6 +968,15 @@ pub fn configs(prop: &str, directed: bool, n: usize, root: K, arcs: &[Arc3], arc
                         for s in &subs_t {
                             v.push((mk(kind, true, None, Meth::Filter, ResK::Cycle), s.clone(), "diff"));
                         }
+                        // the root itself as target: outside C04/C05/C06's wording, but the
+                        // transposed call must still equal the plain call on the reversed graph
+                        for res in [ResK::Path, ResK::Search] {
+                            v.push((mk(kind, true, Some(root), Meth::None, res), vec![], "diffonly"));
+                            v.push((mk(kind, true, Some(root), Meth::ForEach, res), vec![], "diffonly"));
+                            for s in subs_t.iter().filter(|s| s.len() == 1) {
+                                v.push((mk(kind, true, Some(root), Meth::Filter, res), s.clone(), "diffonly"));
+                            }
+                        }
                         for &t in &targets {
                             for res in [ResK::Path, ResK::Search] {
                                 v.push((mk(kind, true, Some(t), Meth::None, res), vec![], "diff"));
@@ -927,14 +1017,18 @@ pub fn configs(prop: &str, directed: bool, n: usize, root: K, arcs: &[Arc3], arc
         _ => {}
     }
     }
-    if matches!(prop, "C07" | "C10") {
-        // the builder calls in the other order (closure first, then transpose / target, then pre()/post())
+    if matches!(prop, "C06" | "C07" | "C08" | "C09" | "C10") {
+        // the builder calls in the other order (closure first, then transpose / target, then
+        // pre()/post() for the orderings and min()/max() for the priority-first searches)
         let mut alts = Vec::new();
         for (cfg, reject, mode) in &v {
-            if mode.is_empty() && (cfg.meth != Meth::None || cfg.transpose || cfg.target.is_some()) {
+            if !matches!(prop, "C07" | "C10") && !(matches!(cfg.kind, Kind::PfsMin | Kind::PfsMax) && reject.len() <= 1) {
+                continue;
+            }
+            if (mode.is_empty() || *mode == "diff") && (cfg.meth != Meth::None || cfg.transpose || cfg.target.is_some()) {
                 let mut c2 = *cfg;
                 c2.alt = true;
-                alts.push((c2, reject.clone(), ""));
+                alts.push((c2, reject.clone(), *mode));
             }
         }
         v.extend(alts);
@@ -1051,6 +1145,9 @@ pub fn sweep<F: Fl>(job: &Job, out: &mut Out) {
     CHURN_FELL_BACK.with(|c| c.set(0));
     if p.large > 0 {
         return large_sweep::<F>(job, &p, out);
+    }
+    if let Some(k) = job.params.get("heap").and_then(|v| v.as_u64()) {
+        return heap_sweep::<F>(job, k as usize, out);
     }
     if p.churn > 0 {
         out.stats.inc("churn_jobs");
